@@ -46,14 +46,14 @@ var auditedPanics = map[string]struct {
 	n      int
 	reason string
 }{
-	"pkg/policy/literal.anyAssemble":             {4, "recovered: literal.Any defers a recover; literal.Map/List call it inside qp.BuildMap/BuildList closures"},
-	"pkg/policy/selector.resolve":                {2, "'should never happen' after qp.BuildList: the only error its closure can raise is re-panicked from lookups guarded by P4's facts"},
-	"pkg/policy/selector.resolveSliceIndices":    {1, "segment.slice is only ever built as rng[:] of a [2]int64 in Parse and the call is guarded by len(seg.Slice()) > 0"},
-	"pkg/policy.matchStatement":                  {12, "11 'unimplemented kind / wrong struct type' exits covered by C11.R1 exhaustiveness (every kind the decoder and constructors create has a case asserting the type they build) + 2 iterator errors of a freshly obtained non-nil ListIterator (contract); compiled as one shared panic block per failed assertion"},
-	"pkg/policy.isOrdered":                       {2, "AsFloat on a node whose Kind()==Float fact is on the path"},
-	"token/delegation.mustLoadSchema":            {1, "static embedded schema, independent of untrusted data"},
-	"token/invocation.mustLoadSchema":            {1, "static embedded schema, independent of untrusted data"},
-	"pkg/policy.mustParseGlob":                   {1, "not reachable from the non-Must entry points (checked)"},
+	"pkg/policy/literal.anyAssemble":          {4, "recovered: literal.Any defers a recover; literal.Map/List call it inside qp.BuildMap/BuildList closures"},
+	"pkg/policy/selector.resolve":             {2, "'should never happen' after qp.BuildList: the only error its closure can raise is re-panicked from lookups guarded by P4's facts"},
+	"pkg/policy/selector.resolveSliceIndices": {1, "segment.slice is only ever built as rng[:] of a [2]int64 in Parse and the call is guarded by len(seg.Slice()) > 0"},
+	"pkg/policy.matchStatement":               {12, "11 'unimplemented kind / wrong struct type' exits covered by C11.R1 exhaustiveness (every kind the decoder and constructors create has a case asserting the type they build) + 2 iterator errors of a freshly obtained non-nil ListIterator (contract); compiled as one shared panic block per failed assertion"},
+	"pkg/policy.isOrdered":                    {2, "AsFloat on a node whose Kind()==Float fact is on the path"},
+	"token/delegation.mustLoadSchema":         {1, "static embedded schema, independent of untrusted data"},
+	"token/invocation.mustLoadSchema":         {1, "static embedded schema, independent of untrusted data"},
+	"pkg/policy.mustParseGlob":                {1, "not reachable from the non-Must entry points (checked)"},
 }
 
 // auditedBounds: function -> number of bounds checks the compiler does not prove, with the reason.
@@ -61,23 +61,23 @@ var auditedBounds = map[string]struct {
 	n      int
 	reason string
 }{
-	"(pkg/command.Command).Segments":                 {1, "strings.Split with a non-empty separator returns >= 1 element"},
-	"(did.DID).PubKey":                               {1, "DID literals are built only by Parse/FromPubKey with the varint of code as prefix (C16.R2); Undef returns before"},
-	"(*token/internal/envelope.CIDReader).Read":      {1, "io.Reader contract: 0 <= n <= len(p)"},
-	"pkg/policy/literal.anyAssemble":                 {2, "sort.Slice passes indexes in range"},
-	"pkg/policy/selector.Parse":                      {5, "seg[1:len-1] under HasPrefix '[' and HasSuffix ']'; lookup[1:len-1] under len(lookup) >= 2; splt[0], splt[1] under sliceRegex (exactly one ':'); seg[1:] under fieldRegex (min length 2)"},
-	"pkg/policy/selector.tokenize":                   {4, "str[col] under col < len(str); str[col-1] with col >= 1 (Parse rejects inputs not starting with '.', and the branch needs a quote at col); str[ofs:col] twice with ofs < col <= len(str)"},
-	"pkg/policy/selector.resolve":                    {2, "b[start:end], runes[start:end]: post-condition of resolveSliceIndices (numeric clause, not decided; operands tied by C12.R4)"},
-	"pkg/policy.parseGlob":                           {2, "pattern[i] under i < len(pattern); pattern[i+1] under i+1 < len(pattern)"},
-	"(pkg/policy.glob).Match":                        {7, "pattern[i], pattern[i+1], str[j] under i < len(pattern), i+1 < len(pattern), j < len(str) on the path (C13.R1 facts); indices only grow from 0 / starIdx+1 / matchIdx"},
-	"pkg/policy.statementsFromIPLD":                  {1, "res = make(_, node.Length()); loop i < node.Length()"},
-	"(pkg/policy.Policy).String":                     {1, "childs = make(_, len(p)); range p"},
-	"(pkg/policy.connective).String":                 {1, "childs = make(_, len(c.statements)); range c.statements"},
-	"(*token/invocation.Token).loadProofs":           {1, "res = make(_, len(t.proof)); range t.proof"},
-	"(*token/invocation.Token).verifyProofs":         {1, "delegations[i], len(delegations) == len(t.proof) by C01.R3; the last-element index is proven by the compiler after the len >= 1 guard"},
-	"(*token/invocation.Token).verifyTimeBoundAt":    {1, "delegations[i], len(delegations) == len(t.proof) by C01.R3"},
-	"(*token/invocation.Token).verifyArgs":           {2, "delegations[i] twice, len(delegations) == len(t.proof) by C01.R3"},
-	"pkg/container.readBlock":                        {1, "raw[n:]: cid.CidFromReader returns the number of bytes it consumed from raw"},
+	"(pkg/command.Command).Segments":              {1, "strings.Split with a non-empty separator returns >= 1 element"},
+	"(did.DID).PubKey":                            {1, "DID literals are built only by Parse/FromPubKey with the varint of code as prefix (C16.R2); Undef returns before"},
+	"(*token/internal/envelope.CIDReader).Read":   {1, "io.Reader contract: 0 <= n <= len(p)"},
+	"pkg/policy/literal.anyAssemble":              {2, "sort.Slice passes indexes in range"},
+	"pkg/policy/selector.Parse":                   {5, "seg[1:len-1] under HasPrefix '[' and HasSuffix ']'; lookup[1:len-1] under len(lookup) >= 2; splt[0], splt[1] under sliceRegex (exactly one ':'); seg[1:] under fieldRegex (min length 2)"},
+	"pkg/policy/selector.tokenize":                {4, "str[col] under col < len(str); str[col-1] with col >= 1 (Parse rejects inputs not starting with '.', and the branch needs a quote at col); str[ofs:col] twice with ofs < col <= len(str)"},
+	"pkg/policy/selector.resolve":                 {2, "b[start:end], runes[start:end]: post-condition of resolveSliceIndices (numeric clause, not decided; operands tied by C12.R4)"},
+	"pkg/policy.parseGlob":                        {2, "pattern[i] under i < len(pattern); pattern[i+1] under i+1 < len(pattern)"},
+	"(pkg/policy.glob).Match":                     {7, "pattern[i], pattern[i+1], str[j] under i < len(pattern), i+1 < len(pattern), j < len(str) on the path (C13.R1 facts); indices only grow from 0 / starIdx+1 / matchIdx"},
+	"pkg/policy.statementsFromIPLD":               {1, "res = make(_, node.Length()); loop i < node.Length()"},
+	"(pkg/policy.Policy).String":                  {1, "childs = make(_, len(p)); range p"},
+	"(pkg/policy.connective).String":              {1, "childs = make(_, len(c.statements)); range c.statements"},
+	"(*token/invocation.Token).loadProofs":        {1, "res = make(_, len(t.proof)); range t.proof"},
+	"(*token/invocation.Token).verifyProofs":      {1, "delegations[i], len(delegations) == len(t.proof) by C01.R3; the last-element index is proven by the compiler after the len >= 1 guard"},
+	"(*token/invocation.Token).verifyTimeBoundAt": {1, "delegations[i], len(delegations) == len(t.proof) by C01.R3"},
+	"(*token/invocation.Token).verifyArgs":        {2, "delegations[i] twice, len(delegations) == len(t.proof) by C01.R3"},
+	"pkg/container.readBlock":                     {1, "raw[n:]: cid.CidFromReader returns the number of bytes it consumed from raw"},
 }
 
 // auditedAsserts: functions with single-result type assertions (panic on mismatch).
@@ -99,11 +99,11 @@ var auditedLoops = map[string]struct {
 	n      int
 	reason string
 }{
-	"(pkg/policy.glob).Match": {1, "greedy two-pointer matcher with backtracking: every iteration either advances j, or advances i, or restarts with matchIdx+1 (C13.R1 classifies every step); termination is NOT decided"},
-	"pkg/container.readCar": {1, "section loop: every iteration consumes a section through readBlock (>= 1 byte: ldRead rejects empty sections) or returns"},
-	"pkg/policy/selector.tokenize": {1, "col is incremented on every path of the body (checked: every latch path carries col' = col+1)"},
+	"(pkg/policy.glob).Match":       {1, "greedy two-pointer matcher with backtracking: every iteration either advances j, or advances i, or restarts with matchIdx+1 (C13.R1 classifies every step); termination is NOT decided"},
+	"pkg/container.readCar":         {1, "section loop: every iteration consumes a section through readBlock (>= 1 byte: ldRead rejects empty sections) or returns"},
+	"pkg/policy/selector.tokenize":  {1, "col is incremented on every path of the body (checked: every latch path carries col' = col+1)"},
 	"(*pkg/policy.ipldPath).String": {1, "walk of the parent chain of an ipldPath: nodes are only created by linking a fresh node to an existing one (statementsFromIPLD / combinePath), so the chain is acyclic and as long as the nesting depth"},
-	"pkg/policy.parseGlob":         {1, "i is incremented by the post statement on every path (checked: every latch path carries i' > i)"},
+	"pkg/policy.parseGlob":          {1, "i is incremented by the post statement on every path (checked: every latch path carries i' > i)"},
 }
 
 func runC09(x *Ctx) {
